@@ -354,6 +354,30 @@ func ruleVersMustPass(p *Prog, r *Report) {
 			if isEx {
 				lk, _ = exv.Tuple.(*ssa.Lookup)
 			}
+			if ph, isPhi := call.Call.Value.(*ssa.Phi); isPhi && lk == nil {
+				// the evaluator chosen by a switch over the scheme: every edge is an entry of the table
+				okAll := len(table) > 0
+				for _, e := range ph.Edges {
+					var f *ssa.Function
+					switch v := e.(type) {
+					case *ssa.Function:
+						f = v
+					case *ssa.MakeClosure:
+						f, _ = v.Fn.(*ssa.Function)
+					}
+					found := false
+					for _, g := range table {
+						if g != nil && g == f {
+							found = true
+						}
+					}
+					okAll = okAll && found
+				}
+				if !okAll {
+					bad = append(bad, fmt.Sprintf("%s: results forwarded from a function value that is not an entry of the scheme switch", pos))
+				}
+				continue
+			}
 			if lk == nil {
 				bad = append(bad, fmt.Sprintf("%s: results forwarded from a function value that is not the looked-up table entry", pos))
 				continue
